@@ -15,6 +15,32 @@ Theorem C04_reports_partition_and_limits :
 Proof. exact reports_spec. Qed.
 Print Assumptions C04_reports_partition_and_limits.
 
+(* The same for every configuration an operator can write: DecodeOffchainConfig applies
+   ensureMinimumDefaults (batch size <= 0 -> 1, gas limit 0 -> 5,300,000, overhead 0 -> 300,000),
+   so no hypothesis on the configuration is left beyond the uint32 width of the two gas fields. *)
+Theorem C04_any_operator_config :
+  forall r ps, rw_limit r < two32 -> rw_over r < two32 -> wf_perfs ps ->
+  C04_spec (cfg_of_raw r) ps (reports true (cfg_of_raw r) ps).
+Proof. exact reports_spec_any_config. Qed.
+Print Assumptions C04_any_operator_config.
+
+(* The defaults guarantee batch size >= 1 and non-zero gas figures, and leave in-range values alone. *)
+Theorem C04_defaults_nonzero :
+  forall r, (1 <= c_batch (cfg_of_raw r))%Z /\ 0 < c_limit (cfg_of_raw r) /\ 0 < c_over (cfg_of_raw r).
+Proof. exact defaults_nonzero. Qed.
+Print Assumptions C04_defaults_nonzero.
+
+Theorem C04_defaults_keep_valid_values :
+  forall r, (1 <= rw_batch r)%Z -> 0 < rw_limit r -> 0 < rw_over r ->
+  cfg_of_raw r = mkCfg (rw_batch r) (rw_limit r) (rw_over r).
+Proof. exact defaults_keep. Qed.
+Print Assumptions C04_defaults_keep_valid_values.
+
+Theorem C04_defaults_idempotent :
+  forall r, ensure_defaults (ensure_defaults r) = ensure_defaults r.
+Proof. exact defaults_idempotent. Qed.
+Print Assumptions C04_defaults_idempotent.
+
 (* The partition clause needs no hypothesis at all (any configuration, any gas values). *)
 Theorem C04_partition_unconditional :
   forall g c ps, concat (reports g c ps) = ps.
@@ -110,10 +136,30 @@ Theorem C04_gen_error_returns :
 Proof. exact gen_reports_errors. Qed.
 Print Assumptions C04_gen_error_returns.
 
+(* ensureMinimumDefaults: the model's ensure_defaults is the translated function - the assignments it performs, in
+   order, applied to the configuration (1 lockout, 2 probability, 3 rounds, 4 confirmations, 5 gas limit 5,300,000,
+   6 overhead 300,000, 7 batch size 1) *)
+Theorem C04_gen_config_defaults :
+  forall r,
+  ensure_defaults r = fold_left cfg_action (fst (cfg_defaults_atoms r)) r /\ snd (cfg_defaults_atoms r) = Fall.
+Proof. exact gen_cfg_defaults. Qed.
+Print Assumptions C04_gen_config_defaults.
+
+(* DecodeOffchainConfig: every configuration returned without error went through the defaults *)
+Theorem C04_gen_config_decode :
+  g_cfg_decode false = ([1], RetO 2) /\ g_cfg_decode true = ([], RetO 1).
+Proof. exact gen_cfg_decode. Qed.
+Print Assumptions C04_gen_config_decode.
+
 End GenTie.
 
 (* Non-vacuity: a concrete configuration and a 5-element list with a repeated upkeep id and
    an over-limit gas allocation satisfy the hypotheses, and the model produces 4 reports. *)
+Example C04_any_operator_config_nonvacuous :
+  let r := mkRaw 0 0 0 (-1) 0 0 (-3) in
+  rw_limit r < two32 /\ rw_over r < two32 /\ cfg_of_raw r = mkCfg 1 5300000 300000.
+Proof. vm_compute. repeat split; reflexivity. Qed.
+
 Example C04_nonvacuous :
   let c := mkCfg 2 1000 10 in
   let ps := [mkPerf 1 100 1; mkPerf 1 100 2; mkPerf 2 5000 3; mkPerf 3 400 4; mkPerf 4 500 5] in
